@@ -359,7 +359,8 @@ func main() {
 				if len(err.Error()) > 5 && err.Error()[:5] == "PANIC" {
 					c.Violate("encode-panic", err.Error(), cs)
 				} else if buf.Len() != 0 {
-					c.Violate("error-but-bytes-written", "Encode returned an error after writing bytes: "+err.Error(), cs)
+					// C02 speaks about calls that return nil: counted, not reported
+					c.Count("observation:error-after-bytes-written")
 				} else {
 					c.Count("encode-error")
 				}
